@@ -18,8 +18,9 @@ META = {
                 "the bit-serial CRC16 of CRC.tla, exactly one strobe per data packet with >= 2 bytes after the PID, never "
                 "both, none for anything else; ready_for_response only after a completion with no packet in between. TLC "
                 "explores every history of the bounded model (all allowed outputs) and proves the Prop invariants; the real "
-                "USBDataPacketReceiver (standalone, and the receiver inside a real USBDevice behind "
-                "the shared CRC unit, with transmissions in between) is driven with TLC-simulated histories and with random "
+                "USBDataPacketReceiver (standalone with speed not given / FULL / LOW / HIGH / a Signal, the "
+                "receiver inside a real UTMI-attached USBDevice behind the shared CRC unit with transmissions in between, and "
+                "inside a ULPI-attached 60 MHz USBDevice behind the UTMITranslator) is driven with TLC-simulated histories and with random "
                 "/ structured packet soups (all PIDs, lengths 0..70, gaps, single-bit corruptions, truncations, back-to-back "
                 "packets) and every recorded cycle is validated by TLC against the specification.",
         "note": "Assumes rx_valid only inside rx_active, rx_active high at least one cycle before the first rx_valid, and an "
@@ -37,7 +38,8 @@ META = {
                 "offered byte is consumed once. TLC explores all requests / stalls / allowed outputs of the bounded model and "
                 "proves the framing and exactly-once invariants; a real USBDevice (transmit path driven through a stub "
                 "endpoint, so device.py's `data_crc.tx_valid = output.valid & tx_ready` is the real line, with receive "
-                "traffic in between) and the standalone generator are driven closed-loop with TLC-simulated schedules, random "
+                "traffic in between; UTMI-attached at 12 MHz and ULPI-attached at 60 MHz with NXT throttling) and the "
+                "standalone generator are driven closed-loop with TLC-simulated schedules, random "
                 "soups (lengths 0..65, 4 PIDs, stall regimes) and a stall at every wire position of short packets; every "
                 "recorded cycle is validated by TLC.",
         "note": "Assumes a USBInStreamInterface producer (byte held until accepted, valid high first..last, one-cycle ZLP "
@@ -53,8 +55,8 @@ META = {
                 "exactly on the first, `last` exactly on the final byte (all out within 3 cycles of valid falling), and "
                 "complete_out / invalid_out come at most once, strictly after the beat marked last, iff the input strobe was "
                 "seen during that packet. TLC explores all histories / strobe placements / allowed outputs of the bounded "
-                "model and proves the Prop invariants over the ghost output log; the real USBOutStreamBoundaryDetector is "
-                "driven with TLC-simulated histories, random packet soups (lengths 1..17, gaps, strobes at every kind of "
+                "model and proves the Prop invariants over the ghost output log; the real USBOutStreamBoundaryDetector (default "
+                "domain and domain=<other name>) is driven with TLC-simulated histories, random packet soups (lengths 1..17, gaps, strobes at every kind of "
                 "position, strobes outside packets) and an exhaustive strobe-placement x length sweep, and every recorded "
                 "cycle is validated by TLC.",
         "note": "Assumes next only inside valid, packets of >= 1 byte (the property's range), >= 6 idle cycles between packets. "
@@ -70,7 +72,7 @@ META = {
                 "changed, sof_detected fires once; any other packet changes nothing. TLC explores all packet sequences of the "
                 "bounded model and proves, over the ghost history of accepted SOFs, that the frame is the last SOF's, the "
                 "microframe counts the repeats since the last change and the strobe marks exactly the changes; a real "
-                "USBDevice on a UTMI bus is fed TLC-simulated and random packet sequences (FS / HS patterns, skips, "
+                "USBDevice (on a UTMI bus, and on a ULPI bus with each setting of the speed inputs) is fed TLC-simulated and random packet sequences (FS / HS patterns, skips, "
                 "wrap-around, single-bit neighbours, every kind of malformed SOF, interleaved tokens / data / handshakes, "
                 "rx_valid gaps) by the UTMI host model and every event is validated by TLC.",
         "note": "The microframe number counts modulo 8 (3-bit output); any number of repeats is legal. Malformed SOFs and "
@@ -651,6 +653,18 @@ def check_C02(rep):
             rep.nontriv(("rx", kind, "tlc-simulate", sum(1 for r in trace if r["cp"]), sum(1 for r in trace if r["mm"])))
         by_kind.setdefault(kind, []).append((trace, {"dut": kind, "origin": origin}))
 
+    #    the receiver inside a ULPI-attached USBDevice (60 MHz, non-fs_only timer tables, UTMITranslator in front):
+    #    the packets of some of the soups above, rendered by the ULPI PHY model with its own receive patterns
+    ub = UlpiRxBench()
+    soups = [st for k, _, o, st in jobs if k == "device" and st is not None and o in ("random-soup", "ignored-head-with-data-tail")]
+    for n_soup, st in enumerate(soups[:3] if quick else soups):
+        pk = [(o, rep.rng.choice([0, 0.3]), 16 + rep.rng.choice([0, 1, 5, 90])) for o, _ in st.packets[:40 if quick else 400]]
+        sc = ["fs_only", "auto"][(rep.seed + n_soup) % 2]
+        trace = ub.run(pk, rep.rng, sc)
+        rep.add_eval(len(trace))
+        rep.nontriv(("rx", "device-ulpi", sc, n_soup))
+        by_kind.setdefault("device-ulpi", []).append((trace, {"dut": "device-ulpi", "speed_inputs": sc, "origin": "soup-via-ulpi"}))
+
     # 4. validate with TLC
     cfg = tlc.render_cfg(_cfg("DataRxTrace.cfg.tmpl"), RX_TRACE_CONSTS)
     validate_group(rep, SPEC_DIR, "DataRxTrace", cfg, [it for items in by_kind.values() for it in items],
@@ -1004,6 +1018,31 @@ def check_C03(rep):
         items.append((trace, {"dut": kind, "origin": origin, "stalls": cls,
                               "script": [{"pid": r["pid"], "payload": r["payload"]} for r in script][:6]}))
 
+    #    the transmit path of a ULPI-attached USBDevice (60 MHz; tx_ready comes from the UTMITranslator / NXT)
+    utb = UlpiTxBench()
+    ulpi_jobs = []
+    for stall_prob, cls in [(0.0, "none"), (0.3, "light"), (0.6, "heavy")]:
+        for t in range(1 if quick else 6):
+            script = [{"pid": rng.randrange(4), "payload": rnd_payload(rng.choice([0, 0, 1, 2, 3, 5, 8, 9])), "idle": rng.choice([1, 2, 5])}
+                      for _ in range(10 if quick else 25)]
+            ulpi_jobs.append((script, stall_prob, None, cls))
+    # NXT held low for 1..2 cycles at every byte position of short packets (position 0 = the TXCMD / PID byte)
+    for n in ([0, 1, 2] if quick else [0, 1, 2, 3, 4]):
+        script, plans = [], []
+        for pos in range(n + 3):
+            for dur in (1, 2):
+                script.append({"pid": (pos + dur) % 4, "payload": rnd_payload(n), "idle": 2})
+                plans.append([1] * pos + [0] * dur + [1] * (n + 6))
+        ulpi_jobs.append((script, 0.0, plans, "nxt-at-position"))
+    for n_job, (script, stall_prob, plans, cls) in enumerate(ulpi_jobs):
+        sc = ["fs_only", "auto"][(rep.seed + n_job) % 2]
+        trace = utb.run(script, rng, (sc, stall_prob, plans))
+        rep.add_eval(len(trace))
+        for rq in script:
+            rep.nontriv(("tx", "device-ulpi", min(len(rq["payload"]), 12), rq["pid"], cls))
+        items.append((trace, {"dut": "device-ulpi", "speed_inputs": sc, "origin": "ulpi", "stalls": cls,
+                              "script": [{"pid": r["pid"], "payload": r["payload"]} for r in script][:6]}))
+
     # 4. validate with TLC
     cfg = tlc.render_cfg(_cfg("DataTxTrace.cfg.tmpl"), TX_CONSTS)
     validate_group(rep, SPEC_DIR, "DataTxTrace", cfg, items, classify=classify_tx,
@@ -1236,7 +1275,7 @@ def check_C28(rep):
                "afterwards the detector must behave like a fresh one")
 
     # 1. exhaustive exploration of the specification
-    runs = [({"Data": TlaSet([0, 1]), "MaxLen": 2, "MaxPkts": 1, "Strobes": TlaSet(["c", "x"]), "MaxResets": 1, "OutWin": 2,
+    runs = [({"Data": TlaSet([0]), "MaxLen": 2, "MaxPkts": 1, "Strobes": TlaSet(["c", "x"]), "MaxResets": 1, "OutWin": 2,
               "StrobeWin": 3, "MinGap": 4}, ()),
             ({"Data": TlaSet([0, 1]), "MaxLen": 3, "MaxPkts": 2, "Strobes": TlaSet(["c"]), "MaxResets": 0, "OutWin": 2, "StrobeWin": 3,
               "MinGap": 4}, ("InvalidOut", "DomainReset"))]
@@ -1378,6 +1417,167 @@ class SofBench:
         self._first = False
         self.sim.run()
         return self._out
+
+
+class UlpiSofBench:
+    """The same per-packet recording for a USBDevice attached through a ULPI PHY (UTMITranslator, 60 MHz `usb` clock,
+    the non-fs_only token detector / timer tables), fed by hosts/ulpi_host.py.  `speed_cfg` selects the device's speed
+    inputs: "fs_only" (full_speed_only = 1), "auto" (neither: high-speed capable, stays at full speed without a bus
+    reset), "ls" (low_speed_only = 1)."""
+
+    def __init__(self):
+        use_repo()
+        from amaranth.sim import Simulator
+        from luna.gateware.usb.usb2.device import USBDevice
+        from ..hosts import ulpi_host
+        self.bus = ulpi_host.make_ulpi_record()
+        self.dev = USBDevice(bus=self.bus)
+        self.stub = _StubEndpoint()
+        self.dev.add_endpoint(self.stub)
+        self.sim = Simulator(self.dev)
+        self.sim.add_clock(1 / 60e6, domain="usb")
+        self._first = True
+        self._job = None
+        self._out = None
+        self.cycles = 0
+        self.sim.add_testbench(self._bench)
+
+    async def _bench(self, ctx):
+        from ..hosts import ulpi_host
+        events, rng, speed_cfg = self._job
+        dev = self.dev
+        ctx.set(dev.full_speed_only, int(speed_cfg == "fs_only"))
+        ctx.set(dev.low_speed_only, int(speed_cfg == "ls"))
+        host = ulpi_host.ULPIHost(self.bus, rng, gap_prob=0.3)
+        cnt = {"nf": 0, "sd": 0}
+
+        def probe(c, h):
+            cnt["nf"] += c.get(dev.new_frame)
+            cnt["sd"] += c.get(dev.sof_detected)
+        host.extra_probe = probe
+        await host.power_on(ctx, dev.connect)
+        init = {"frame": ctx.get(dev.frame_number), "micro": ctx.get(dev.microframe_number)}
+        steps = []
+        for ev in events:
+            cnt["nf"] = cnt["sd"] = 0
+            octets = list(ev["bytes"])
+            gaps = ev.get("gaps") or [0 if rng.random() >= ev.get("gap_prob", 0) else rng.randint(1, 4) for _ in octets]
+            await host.send_raw(ctx, octets, gaps=gaps)
+            await host.idle(ctx, max(ev.get("idle", 8), 8))
+            steps.append({"bytes": octets, "nf": cnt["nf"], "sd": cnt["sd"],
+                          "frame": ctx.get(dev.frame_number), "micro": ctx.get(dev.microframe_number)})
+        self.cycles += host.cycle_no
+        self._out = {"init": init, "steps": steps}
+
+    def run(self, events, rng, speed_cfg):
+        self._job = (events, rng, speed_cfg)
+        self._out = None
+        if not self._first:
+            self.sim.reset()
+        self._first = False
+        self.sim.run()
+        return self._out
+
+
+class UlpiRxBench(UlpiSofBench):
+    """Cycle-grain recording of the receive path of a ULPI-attached USBDevice: the UTMI receive signals the
+    UTMITranslator produces (observed, they are the `inputs` of DataRx.tla) and the receiver's outputs at the stub
+    endpoint.  Packets are sent by hosts/ulpi_host.py with its random ULPI receive patterns."""
+
+    async def _bench(self, ctx):
+        from ..hosts import ulpi_host
+        packets, rng, speed_cfg = self._job
+        dev, itf, u = self.dev, self.stub.interface, self.dev.utmi
+        ctx.set(dev.full_speed_only, int(speed_cfg == "fs_only"))
+        host = ulpi_host.ULPIHost(self.bus, rng, gap_prob=0.3)
+        rec = []
+        on = [False]
+
+        def probe(c, h):
+            if on[0]:
+                rec.append({"rst": False, "active": bool(c.get(u.rx_active)), "valid": bool(c.get(u.rx_valid)),
+                            "data": c.get(u.rx_data), "sv": bool(c.get(itf.rx.valid)), "nx": bool(c.get(itf.rx.next)),
+                            "pl": c.get(itf.rx.payload), "cp": bool(c.get(itf.rx_complete)), "mm": bool(c.get(itf.rx_invalid)),
+                            "rfr": bool(c.get(itf.rx_ready_for_response)), "pid": 99})
+        host.extra_probe = probe
+        await host.power_on(ctx, dev.connect)
+        on[0] = True
+        await host.idle(ctx, 16)
+        for octets, gap_prob, idle in packets:
+            gaps = [0 if rng.random() >= gap_prob else rng.randint(1, 4) for _ in octets]
+            await host.send_raw(ctx, list(octets), gaps=gaps)
+            await host.idle(ctx, idle)
+        await host.idle(ctx, 120)
+        self.cycles += host.cycle_no
+        self._out = rec
+
+
+class UlpiTxBench(UlpiSofBench):
+    """Closed-loop producer for the transmit path of a ULPI-attached USBDevice: the stub endpoint's stream is driven
+    as in TxBench, the PHY side is the reactive ULPI PHY model (NXT throttling = tx_ready stalls, chosen by the host
+    model's stall_prob or an explicit NXT plan); tx_valid / tx_data / tx_ready are observed on the UTMI side of the
+    UTMITranslator, so `data_crc.tx_valid = output.valid & tx_ready` sees the translator's real tx_ready."""
+
+    async def _bench(self, ctx):
+        from ..hosts import ulpi_host
+        script, rng, (speed_cfg, stall_prob, plans) = self._job
+        dev, itf, u = self.dev, self.stub.interface, self.dev.utmi
+        ctx.set(dev.full_speed_only, int(speed_cfg == "fs_only"))
+        host = ulpi_host.ULPIHost(self.bus, rng, stall_prob=stall_prob, max_stall=3)
+        rec = []
+        cur = {"sv": 0, "sf": 0, "sl": 0, "sp": 0, "pid": 0}
+        last = {}
+        on = [False]
+
+        def probe(c, h):
+            last.update(sr=bool(c.get(itf.tx.ready)), tv=bool(c.get(u.tx_valid)), td=c.get(u.tx_data),
+                        rdy=bool(c.get(u.tx_ready)))
+            if on[0]:
+                rec.append({"rst": False, "sv": bool(cur["sv"]), "sf": bool(cur["sf"]), "sl": bool(cur["sl"]), "sp": cur["sp"],
+                            "pid": cur["pid"], "rdy": last["rdy"], "sr": last["sr"], "tv": last["tv"], "td": last["td"]})
+        host.extra_probe = probe
+
+        async def cycle(sv, sf, sl, sp, pid):
+            cur.update(sv=sv, sf=sf, sl=sl, sp=sp, pid=pid)
+            ctx.set(itf.tx.valid, sv)
+            ctx.set(itf.tx.first, sf)
+            ctx.set(itf.tx.last, sl)
+            ctx.set(itf.tx.payload, sp)
+            ctx.set(itf.tx_pid_toggle, pid)
+            await host.cycle(ctx)
+            return last["sr"], last["tv"]
+
+        await host.power_on(ctx, dev.connect)
+        on[0] = True
+        for n_rq, rq in enumerate(script):
+            for _ in range(max(rq.get("idle", 1), 1)):
+                await cycle(0, 0, 0, 0, 0)
+            if plans and n_rq < len(plans) and plans[n_rq]:
+                host.nxt_plan = list(plans[n_rq])
+            pid, payload = rq["pid"], rq["payload"]
+            seen_tv = False
+            if not payload:
+                await cycle(1, 0, 1, 0, pid)
+            else:
+                k = guard = 0
+                while k < len(payload) and guard <= 200:
+                    sr, tv = await cycle(1, int(k == 0), int(k == len(payload) - 1), payload[k], pid)
+                    seen_tv = seen_tv or tv
+                    k, guard = (k + 1, 0) if sr else (k, guard + 1)
+            for _ in range(400):
+                sr, tv = await cycle(0, 0, 0, 0, pid)
+                if tv:
+                    seen_tv = True
+                elif seen_tv:
+                    break
+            host.nxt_plan = []
+            # let the PHY finish the packet on the ULPI side (STP, turn-around) before the next request
+            for _ in range(6):
+                await cycle(0, 0, 0, 0, 0)
+        for _ in range(8):
+            await cycle(0, 0, 0, 0, 0)
+        self.cycles += host.cycle_no
+        self._out = rec
 
 
 def _sof_events(rng, n):
@@ -1565,7 +1765,10 @@ def check_C21(rep):
                     f = (f + 1) % 2048
     jobs.append((evs, "gap-pattern-sweep", [("sof", "gaps")]))
 
-    # 3. run on the real device
+    # 3. run on the real device.  USBDevice's constructor parameter is the bus: a UTMI bus (always full speed, 12 MHz
+    #    tables; every stimulus), a ULPI bus (UTMITranslator, 60 MHz, non-fs_only token detector / timer; speed inputs
+    #    full_speed_only / low_speed_only) -- quick: one speed setting rotated by the seed on a subset of the stimuli;
+    #    thorough: all three on all stimuli.  (The raw-I/O bus -> GatewarePHY is the fsphy engine's DUT, not elaborated here.)
     bench = SofBench()
     items = []
     for events, origin, tags in jobs:
@@ -1574,14 +1777,24 @@ def check_C21(rep):
             rep.nontriv(("sof",) + tuple(t))
         if not tags:
             rep.nontriv(("sof", "tlc", sum(s["nf"] for s in tr["steps"]), sum(s["sd"] for s in tr["steps"])))
-        items.append((tr, {"origin": origin, "events": len(events)}))
+        items.append((tr, {"origin": origin, "bus": "utmi", "events": len(events)}))
     rep.add_eval(bench.cycles)
+    ubench = UlpiSofBench()
+    cfgs = ["fs_only", "auto", "ls"]
+    for n_job, (events, origin, tags) in enumerate(jobs):
+        if quick and origin not in ("long-runs", "distance-sweep", "eight-microframes") and not (origin == "random" and n_job % 5 == 0):
+            continue
+        for sc in ([cfgs[rep.seed % 3]] if quick else cfgs):
+            tr = ubench.run(events[:80] if quick else events, rng, sc)
+            rep.nontriv(("sof", "ulpi", sc, origin))
+            items.append((tr, {"origin": origin, "bus": "ulpi", "speed_inputs": sc, "events": len(tr["steps"])}))
+    rep.add_eval(ubench.cycles)
 
     # 4. validate with TLC
     cfg = _cfg("FrameNumTrace.cfg.tmpl")
     validate_group(rep, SPEC_DIR, "FrameNumTrace", cfg, items, classify=classify_sof,
                    steps_of=lambda t: len(t["steps"]), what_prefix="USBDevice frame numbers ", chunk=1000)
-    tr = items[len(behs)][0]
+    tr = next(t for t, m in items if m["origin"] == "random")
     rep.sample({"origin": "random", "init": tr["init"], "first_events": tr["steps"][:8]})
 
 
